@@ -385,9 +385,111 @@ theorem readerOpen_ok_iff (bs : Bytes) (h : Header) :
   · rintro ⟨hl, rfl, hm0, hm1, hv, hg, hs⟩
     rw [readerOpen_good bs ⟨hl, hm0, hm1, hv, hg⟩, if_neg (by omega)]
 
+/-! ### growing a short usable file (`set_len(72)`) -/
+
+theorem length_extendToSegment (bs : Bytes) : (extendToSegment bs).length = max bs.length 72 := by
+  unfold extendToSegment SEGMENT_SIZE
+  rw [List.length_append, List.length_replicate]; omega
+
+theorem le_length_extendToSegment (bs : Bytes) : 72 ≤ (extendToSegment bs).length := by
+  rw [length_extendToSegment]; omega
+
+/-- a file of 72 bytes or more is not touched -/
+theorem extendToSegment_of_le (bs : Bytes) (h : 72 ≤ bs.length) : extendToSegment bs = bs := by
+  unfold extendToSegment SEGMENT_SIZE
+  have : 72 - bs.length = 0 := by omega
+  rw [this]; simp
+
+theorem slice_append_left (a b : Bytes) (o n : Nat) (h : o + n ≤ a.length) :
+    slice (a ++ b) o n = slice a o n := by
+  apply List.ext_getElem?
+  intro i
+  rw [getElem?_slice, getElem?_slice]
+  split
+  · rw [List.getElem?_append_left (by omega)]
+  · rfl
+
+/-- the existing bytes stay: in particular the header is read as before -/
+theorem slice_extendToSegment (bs : Bytes) (o n : Nat) (h : o + n ≤ bs.length) :
+    slice (extendToSegment bs) o n = slice bs o n := slice_append_left _ _ o n h
+
+theorem parseHeader_extendToSegment (bs : Bytes) (h : 16 ≤ bs.length) :
+    parseHeader (extendToSegment bs) = parseHeader bs := by
+  unfold parseHeader
+  rw [slice_extendToSegment bs 0 4 (by omega), slice_extendToSegment bs 4 4 (by omega),
+    slice_extendToSegment bs 8 4 (by omega), slice_extendToSegment bs 12 2 (by omega),
+    slice_extendToSegment bs 14 2 (by omega)]
+
+/-- header of a usable segment after start-up and one `write` -/
+theorem parseHeader_takeover_ext (bs : Bytes) (r : Record) (pad : Bytes) (hlen : 16 ≤ bs.length) :
+    parseHeader (writeRecord (patch (extendToSegment bs) 12 (encU16 1)) r pad) =
+      { parseHeader bs with version := 1,
+                            generation := genFinish (genStart (parseHeader bs).generation) } := by
+  rw [parseHeader_takeover _ r pad (by have := le_length_extendToSegment bs; omega),
+    parseHeader_extendToSegment bs hlen]
+
+theorem length_takeover_ext (bs : Bytes) (r : Record) (pad : Bytes) :
+    (writeRecord (patch (extendToSegment bs) 12 (encU16 1)) r pad).length = max bs.length 72 := by
+  rw [length_writeRecord, length_patch, length_extendToSegment]
+
+/-- the record area of a usable segment after start-up and one `write`: always inside the file -/
+theorem record_after_takeover_ext (bs : Bytes) (r : Record) (pad : Bytes) :
+    slice (writeRecord (patch (extendToSegment bs) 12 (encU16 1)) r pad) HEADER_SIZE RECORD_SIZE =
+      encodeRecordP r pad :=
+  record_after_write _ r pad (by rw [length_patch]; exact le_length_extendToSegment bs)
+
+/-- a usable file of at most 72 bytes, after start-up and one `write`, byte for byte: its first twelve
+    bytes, version 1, the advanced generation, the record (nothing of the zero fill, and nothing of
+    what the file held from byte 16 on, survives) -/
+theorem extended_bytes (bs : Bytes) (r : Record) (pad : Bytes) (hlen : 16 ≤ bs.length) (hshort : bs.length ≤ 72) :
+    writeRecord (patch (extendToSegment bs) 12 (encU16 1)) r pad =
+      slice bs 0 12 ++ encU16 1 ++ encU16 (genFinish (genStart (parseHeader bs).generation)) ++
+        encodeRecordP r pad := by
+  have hl : (writeRecord (patch (extendToSegment bs) 12 (encU16 1)) r pad).length = 12 + 2 + 2 + 56 := by
+    rw [length_takeover_ext]; omega
+  obtain ⟨hA, hB, hC⟩ := takeover_bytes (extendToSegment bs) r pad
+    (by have := le_length_extendToSegment bs; omega)
+  have hrec := record_after_takeover_ext bs r pad
+  rw [parseHeader_extendToSegment bs hlen] at hC
+  rw [slice_extendToSegment bs 0 12 (by omega)] at hA
+  generalize writeRecord (patch (extendToSegment bs) 12 (encU16 1)) r pad = W at *
+  have hsplit : W = slice W 0 12 ++ slice W 12 2 ++ slice W 14 2 ++ slice W 16 56 := by
+    rw [slice_append_slice W 0 12 2, slice_append_slice W 0 (12 + 2) 2, slice_append_slice W 0 (12 + 2 + 2) 56,
+      ← hl, slice_all]
+  unfold HEADER_SIZE RECORD_SIZE at hrec
+  rw [hsplit, hA, hB, hC, hrec]
+
 theorem writerNew_usable (bs : Bytes) (h : Header) (hok : readerOpen (.file bs) = .ok h) :
-    writerNew (.file bs) = .ok (.file (patch bs 12 (encU16 1)), false) := by
+    writerNew (.file bs) = .ok (.file (patch (extendToSegment bs) 12 (encU16 1)), false) := by
   unfold writerNew; rw [hok]
+
+theorem slice_append_right (a b : Bytes) (o n : Nat) (ha : a.length = o) (hb : b.length ≤ n) :
+    slice (a ++ b) o n = b := by
+  subst ha
+  unfold slice
+  rw [List.drop_left, List.take_of_length_le hb]
+
+/-- the four padding bytes as they are observed in a 72-byte image -/
+theorem pad_of_image (hd : Bytes) (v g : Nat) (r : Record) (pad : Bytes) (h12 : hd.length = 12) :
+    slice (hd ++ encU16 v ++ encU16 g ++ encodeRecordP r pad) 68 4 = padBytes pad := by
+  unfold encodeRecordP
+  simp only [← List.append_assoc]
+  apply slice_append_right _ _ 68 4
+  · simp only [List.length_append, h12, encU16, encU32, encI64, length_encLE]
+  · rw [length_padBytes]; decide
+
+theorem encodeRecordP_padBytes (r : Record) (pad : Bytes) : encodeRecordP r (padBytes pad) = encodeRecordP r pad := by
+  unfold encodeRecordP
+  have : padBytes (padBytes pad) = padBytes pad := by
+    obtain ⟨a, b, c, d, e⟩ := padBytes_eq pad
+    rw [e]; rfl
+  rw [this]
+
+theorem startAndPublish_usable (bs : Bytes) (h : Header) (r : Record) (pad : Bytes)
+    (hok : readerOpen (.file bs) = .ok h) :
+    startAndPublish (.file bs) r pad =
+      .ok (.file (writeRecord (patch (extendToSegment bs) 12 (encU16 1)) r pad), false) := by
+  unfold startAndPublish; rw [writerNew_usable bs h hok]; rfl
 
 theorem writerNew_unusable (st : FileState) (hd : st ≠ .directory) (hno : ∀ h, readerOpen st ≠ .ok h) :
     writerNew st = .ok (.file (patch wipeBytes 12 (encU16 1)), true) := by
